@@ -6,6 +6,7 @@
 import numpy as np
 
 from .base_classes import Shape2D
+from .utils import _own_scalar
 
 
 class Circle(Shape2D):
@@ -67,7 +68,7 @@ class Circle(Shape2D):
     @radius.setter
     def radius(self, value):
         if value > 0:
-            self._radius = value
+            self._radius = _own_scalar(value)
         else:
             raise ValueError("Radius must be greater than zero.")
 
